@@ -996,6 +996,11 @@ func cexString(c map[string]bool) string {
 // unsigned x>0 becomes negated x==0, constants are moved to the right.
 func condLit(v ssa.Value) (atom string, neg bool) {
 	switch x := v.(type) {
+	case *ssa.Call:
+		// errors.Is(err, <constant errno>) reads as err == <errno> (it holds whenever the comparison does)
+		if e, tgt, ok := errorsIsConst(x); ok {
+			return describe(e) + " == " + describe(tgt), false
+		}
 	case *ssa.UnOp:
 		if x.Op == token.NOT {
 			a, n := condLit(x.X)
@@ -1766,4 +1771,19 @@ func operatesOn(fn *ssa.Function, typeSuffix string) bool {
 		}
 	}
 	return false
+}
+
+// errorsIsConst: the call is errors.Is(e, target) with a constant target (an errno constant boxed in an interface).
+func errorsIsConst(call *ssa.Call) (e, target ssa.Value, ok bool) {
+	if n, _ := calleeOf(call); n != "errors.Is" || len(call.Call.Args) != 2 {
+		return nil, nil, false
+	}
+	mi, isMI := call.Call.Args[1].(*ssa.MakeInterface)
+	if !isMI {
+		return nil, nil, false
+	}
+	if _, isC := mi.X.(*ssa.Const); !isC {
+		return nil, nil, false
+	}
+	return call.Call.Args[0], call.Call.Args[1], true
 }
